@@ -42,7 +42,7 @@ REACH = {
               "container_reread": 1000, "fresh_process_rereads": 100},
     "thorough": {"forms_compared": 500000},
 }
-OPS = ["binary", "container", "json", "validate", "pcf", "fingerprint", "generate", "resolve"]
+OPS = ["binary", "container", "json", "validate", "pcf", "fingerprint", "generate", "resolve", "named_reads"]
 
 
 def _rec(name, ns, field, ftype="double", default=0.0):
@@ -297,6 +297,21 @@ def run_ops(fa, schema, data, seed, rereads, skip_generate=False, raw=None):
         return res
 
     out["resolve"] = obs(resolve) if raw is not None else ("ok", None)
+
+    def named_reads():
+        # the reader options reach every depth whichever form the schema has
+        res = []
+        for d in data:
+            b = io.BytesIO()
+            fa.schemaless_writer(b, schema, d)
+            enc = b.getvalue()
+            res.append(fa.schemaless_reader(io.BytesIO(enc), schema, return_named_type=True))
+            # (return_record_name is left out: the library documents that it takes every by-name
+            # branch for a record, which by construction differs between in-place and by-name forms)
+            res.append(fa.schemaless_reader(io.BytesIO(enc), schema, return_named_type=True, return_named_type_override=True))
+        return res
+
+    out["named_reads"] = obs(named_reads)
     out["validate"] = obs(lambda: [fa.validate(d, schema, raise_errors=False) for d in data] + [fa.validate(object, schema, raise_errors=False)])
     out["pcf"] = obs(lambda: to_parsing_canonical_form(schema))
     out["fingerprint"] = obs(lambda: fingerprint(to_parsing_canonical_form(schema), "CRC-64-AVRO"))
